@@ -28,6 +28,8 @@ pub trait RecGlue: 'static {
     fn clone_from_dyn(&mut self, source: &dyn RecGlue) -> bool;
     /// fmt 0: JSON text, 1: `serde_json::Value` (rendered), 2: bincode. `None`: no serde fragment.
     fn ser(&self, fmt: u8) -> Option<Result<Vec<u8>, String>>;
+    /// Whether every field currently holds a value JSON can carry.
+    fn json_safe(&self) -> bool;
     /// JSON rendering of one field through its accessor.
     fn field_json(&self, datum: usize) -> Option<String>;
     fn new_vec(&self) -> Box<dyn VecGlue>;
